@@ -17,12 +17,15 @@ RULE = ("cases: data sets with distinct consecutive points (random walks with st
         "the end / corner data (approximation) and satisfies the normal equations sum_k N_j(u_k)(C(u_k)-Q_k)=0 for every interior "
         "control point plus a perturbation probe (curve approximation). Non-trivial: >= 4 data points per direction; distinct = case hash.")
 ASSUMPTIONS = ["nvmon.ref exact reference evaluation of the returned definition", "tolerance 1e-7*scale for interpolation (collocation "
-               "systems of the generated data are well conditioned: steps in [0.1,2]); 1e-6*scale*m for the normal equations"]
+               "systems of the generated data are well conditioned: steps in [0.1,2]); 1e-6*scale*m for the normal equations",
+               "minimality: the library's exact objective must not exceed (1+1e-6) x the exact objective of a candidate computed by numpy.linalg.lstsq "
+               "(orthogonal factorisation) - a worse library result is refuted exactly by that witness; results with cond(N^T N) > 1e12 (float "
+               "estimate) are keyed .../near-interpolation-normal-equations"]
 FLOORS = {'quick': {'interp-curve-point': 1500, 'interp-surface-point': 1000, 'approx-curve-normal-eq': 300, 'approx-ends': 150,
                     'approx-surface-corner': 100, 'params': 200},
           'thorough': {'interp-curve-point': 15000, 'interp-surface-point': 10000, 'approx-curve-normal-eq': 3000}}
 MANDATORY_TAGS = ['interp-curve', 'interp-surface', 'approx-curve', 'approx-surface', 'centripetal', 'chord', 'dim2', 'dim3', 'n>=30',
-                  'deg1', 'deg5', 'min-ctrlpts', 'max-ctrlpts']
+                  'deg1', 'deg5', 'min-ctrlpts', 'max-ctrlpts', 'approx:near-interpolation']
 TECHNIQUE = ("runtime monitoring: definitional oracle on every fitting call (independently recomputed parameters, exact reference "
              "evaluation of the returned definition at them, exact-basis normal equations and a perturbation probe)")
 LEVEL_TEXT = ("Every fit the workload requests is judged against the interpolation / least-squares conditions computed from the "
@@ -41,6 +44,11 @@ def gen(rng, tier, shard, nshards):
         cs = rng.choice([deg + 2, npts - 1, rng.randint(deg + 2, npts - 1)])
         yield {'kind': 'approx-curve', 'n': npts, 'dim': rng.choice([2, 3]), 'degree': deg, 'ctrlpts_size': cs,
                'centripetal': rng.random() < 0.5, 'seed': rng.randrange(1 << 30)}
+        if i % 6 == 0:
+            # nearly as many control points as data points, higher degrees: the normal equations are close to singular
+            npts = rng.randint(30, 40)
+            yield {'kind': 'approx-curve', 'n': npts, 'dim': rng.choice([2, 3]), 'degree': rng.randint(3, 10), 'ctrlpts_size': npts - rng.randint(1, 3),
+                   'centripetal': rng.random() < 0.5, 'seed': rng.randrange(1 << 30)}
         if i % 2 == 0:
             su, sv = rng.randint(3, smax), rng.randint(3, smax)
             yield {'kind': 'interp-surface', 'su': su, 'sv': sv, 'du': rng.randint(1, min(4, su - 1)), 'dv': rng.randint(1, min(4, sv - 1)),
@@ -155,7 +163,15 @@ def ac(case, ctx):
     ctx.nontriv(True)
     pts = walk(rng, n, dim)
     sc = scale_pts(pts)
-    c = fitting.approximate_curve([list(q) for q in pts], p, centripetal=cen, ctrlpts_size=nc)
+    try:
+        c = fitting.approximate_curve([list(q) for q in pts], p, centripetal=cen, ctrlpts_size=nc)
+    except ZeroDivisionError:
+        if n >= 24 and nc >= n - 5:
+            ctx.tag('approx:near-interpolation')
+            ctx.fail('approx-curve/raises/near-interpolation-normal-equations', 'approximate_curve(n=%d, degree=%d, ctrlpts_size=%d) raised '
+                     'ZeroDivisionError (numerically singular normal equations N^T N factorised without pivoting)' % (n, p, nc))
+            return
+        raise
     ok = c.degree == p and c.ctrlpts_size == nc and clamped(list(c.knotvector), p) and len(c.knotvector) == nc + p + 1
     if not ctx.check(ok, 'approx-curve/structure', 'approximate_curve(n=%d, degree=%d, ctrlpts_size=%d): degree %r, %d control points'
                      % (n, p, nc, c.degree, c.ctrlpts_size), what='structure'):
@@ -186,6 +202,48 @@ def ac(case, ctx):
                      'centripetal=%s): normal equations violated, max |sum_k N_j(u_k)(C(u_k)-Q_k)| = %r' % (n, p, nc, cen, worst),
                      what='approx-curve-normal-eq'):
         return
+    # the objective itself against the exact minimum over the interior control points (same knot vector, same parameters, same end points):
+    # small normal-equation residuals do not imply a near-minimal objective when N^T N is ill conditioned
+    if nc - 2 >= 1:
+        P = {t[0]: [F(x) for x in v] for t, v in S.net.items()}
+        rows = []                                  # N restricted to the interior data points / interior control points
+        rhs = []
+        for k_, b in zip(range(1, n - 1), bas):
+            rows.append([b.get(j, F(0)) for j in range(1, nc - 1)])
+            rhs.append([F(q) - b.get(0, F(0)) * P[0][d_] - b.get(nc - 1, F(0)) * P[nc - 1][d_] for d_, q in enumerate(pts[k_])])
+        m_ = nc - 2
+        X = None
+        cond = None
+        try:
+            import numpy as np
+            Nf = np.array([[float(x) for x in r] for r in rows])
+            Rf = np.array([[float(x) for x in r] for r in rhs])
+            Xf = np.linalg.lstsq(Nf, Rf, rcond=None)[0]        # orthogonal-factorisation least squares: a CANDIDATE minimiser
+            X = [[F(float(x)) for x in r] for r in Xf]
+            cond = float(np.linalg.cond(Nf.T @ Nf))
+        except ImportError:
+            if m_ <= 20:
+                NtN = [[sum(r[i_] * r[j_] for r in rows) for j_ in range(m_)] for i_ in range(m_)]
+                NtR = [[sum(r[i_] * q[d_] for r, q in zip(rows, rhs)) for d_ in range(dim)] for i_ in range(m_)]
+                try:
+                    X = ref.solve(NtN, NtR)
+                except ZeroDivisionError:
+                    X = None
+        if X is not None:
+            # exact objective of the candidate: an upper bound of the minimum; a library result that is worse than it is refuted exactly
+            obj_min = sum(sum((sum(r[i_] * X[i_][d_] for i_ in range(m_) if r[i_]) - q[d_]) ** 2 for d_ in range(dim)) for r, q in zip(rows, rhs))
+            obj_lib = sum(sum(x ** 2 for x in r) for r in res)
+            # mechanism class: the normal equations N^T N the library forms are numerically singular (cond * eps >~ 1e-4)
+            illc = (cond is not None and cond > 1e12) or (cond is None and n >= 24 and nc >= n - 5)
+            key = 'approx-curve/not-minimal' + ('/near-interpolation-normal-equations' if illc else '')
+            if illc:
+                ctx.tag('approx:near-interpolation')
+                ctx.notes['max_cond_normal_equations'] = max(ctx.notes.get('max_cond_normal_equations', 0.0), cond or 0.0)
+            ctx.check(obj_lib <= obj_min * (1 + F(1, 10 ** 6)) + F(1e-12 * sc * sc), key, 'approximate_curve(n=%d, degree=%d, ctrlpts_size=%d, '
+                      'centripetal=%s): summed squared distance %.6g, but the interior control points found by an orthogonal-factorisation least '
+                      'squares solve give %.6g (ratio %.4g; cond(N^T N) = %s); largest control point coordinate %.3g'
+                      % (n, p, nc, cen, float(obj_lib), float(obj_min), float(obj_lib / obj_min) if obj_min else float('inf'),
+                         '%.3g' % cond if cond else 'n/a', max(abs(float(x)) for v in P.values() for x in v)), what='approx-curve-minimum')
     # perturbation probe: moving an interior control point must not decrease the objective
     obj0 = sum(sum(float(x) ** 2 for x in r) for r in res)
     j = rng.randint(1, nc - 2)
